@@ -64,6 +64,11 @@ func (c06Sys) Letters(s *c06State) []engine.Letter {
 				ls = append(ls, engine.Letter{Name: fmt.Sprintf("Deliver(seq=%d,by=%s,content=%s)", seq, by, []string{"orig", "altered"}[v]), Data: c06Deliver{seq, by, v}})
 			}
 		}
+		// a replay (or a message ahead of its turn) naming a denom the chain has never seen: a no-op
+		// must not even register it
+		if seq != s.next {
+			ls = append(ls, engine.Letter{Name: fmt.Sprintf("Deliver(seq=%d,by=e1,content=another-denom)", seq), Data: c06Deliver{seq, "e1", 2}})
+		}
 	}
 	ls = append(ls, engine.Letter{Name: "UserWithdraw(alice,1)", Data: c06Withdraw{}})
 	ls = append(ls, engine.Letter{Name: "BankSend(alice->bob,1)", Data: c06Send{}})
@@ -89,6 +94,9 @@ func c06Msg(seq uint64, by string, variant int) (*opchildtypes.MsgFinalizeTokenD
 		to, toName = "garbage-recipient", ""
 	}
 	amt := int64(seq)
+	if variant == 2 {
+		return opchildtypes.NewMsgFinalizeTokenDeposit(world.Addr(by).String(), "l1sender", to, sdk.NewInt64Coin(ref.L2Denom(1, "never-deposited"), amt), seq, 5, "never-deposited", nil), "alice", amt
+	}
 	if variant == 1 {
 		amt += 10
 		to, toName = world.Addr("bob").String(), "bob"
@@ -245,7 +253,7 @@ func (c06Sys) Step(s *c06State, l engine.Letter) (*c06State, string, *engine.Vio
 		for k, v := range s.processed {
 			np[k] = v
 		}
-		np[d.seq] = []string{"orig", "altered"}[d.variant]
+		np[d.seq] = []string{"orig", "altered", "another-denom"}[d.variant]
 		c.processed = np
 		if toName == "" {
 			if len(wevs) != 1 {
